@@ -1,10 +1,10 @@
 SPECIFICATION Spec
 CONSTANTS
   Lists <- ListsTwo
-  MaxTypes = 2
+  MaxTypes = 1
   MaxFuncs = 1
-  MaxEdits = 1
-  EditOps = {"build", "findadd", "nametype", "delete", "root", "gc"}
+  MaxEdits = 4
+  EditOps = {"findadd", "nametype", "delete", "gc"}
 INVARIANTS
   EmitCase
 CHECK_DEADLOCK FALSE
